@@ -1,4 +1,5 @@
 import Spdc.Real.Optimum
+import Spdc.Real.ComposeAutoLemmas
 /-!
 # C20 — normalised spectra are relative to the optimised setup; optimising is idempotent
 
@@ -86,6 +87,28 @@ theorem optimum_idem_forward (ext : Ext α A) (s o : Setup α A)
   optimum_idem ext s o h hθ (fun hc => by rw [hfw] at hc; exact absurd hc (by decide))
 
 end idem
+
+/-! ## composed model
+
+`optimum_idem` above is about `tryAsOptimum ext` for an arbitrary bundle `ext`, with the hypothesis
+`hθ` that `optimum_theta` does not read the crystal angle it is handed.  `Compose.asOptimum`
+(`Spdc/Model/ComposeAuto.lean`) is `try_as_optimum` on primitive setups with every routine computed
+by the composed model (Nelder–Mead over the composed `|Δk_z|`, optimum idler, optimal waist
+positions); for it `hθ` is a theorem: the cost closure overwrites the crystal angle before every use
+and the external angle of the collinear reset signal is `asin(n · sin 0) = 0` whatever the angle. -/
+
+/-- composed model, T1 with concrete routines and `hθ` discharged (forward propagation): optimising
+an optimised primitive setup changes nothing.  No hypothesis besides `counter_propagation = false`. -/
+theorem compose_optimum_idem (S o : Compose.Setup ℝ) (h : Compose.asOptimum S = .ok o)
+    (hfw : S.counterProp = false) : Compose.asOptimum o = .ok o :=
+  Compose.asOptimum_idem S o h hfw
+
+/-- composed model: the discharged hypothesis itself — for a collinear signal the composed
+`optimum_theta` does not depend on the crystal angle stored in the setup -/
+theorem compose_optimum_theta_ignores_angle (S : Compose.Setup ℝ) (θ : ℝ) (s p : Beam.Beam ℝ)
+    (hs : s.theta = 0) :
+    Compose.optimumThetaB { S with cTheta := θ } s p = Compose.optimumThetaB S s p :=
+  Compose.optimumThetaB_collinear (T := { S with cTheta := θ }) (U := S) ⟨rfl, rfl, rfl, rfl, rfl, rfl⟩ s p hs
 
 section real
 variable {A I : Type}
@@ -231,7 +254,7 @@ theorem pinned_not_idempotent :
   refine ⟨_, rfl, ?_⟩
   intro h
   have hz := congrArg (fun r => match r with | Outcome.ok t => t.zi | _ => 0) h
-  simp [tryAsOptimumPinned, finishOptimumPinned, resetSignal, Beam.setAngles, ext0, s0, beam0,
+  simp [tryAsOptimumPinned, finishOptimumPinned, resetSignal, Optimum.Beam.setAngles, ext0, s0, beam0,
     Outcome.bind] at hz
 
 /-- non-vacuity of T1: the repaired wiring is idempotent on the same input, through the theorem -/
